@@ -26,10 +26,10 @@ type runnerModel struct {
 	fLP    *types.Var   // markup.LineParser
 	fDlg   *types.Var   // *tree.Dialogue
 
-	next, restore, snapshot, ctor            *Func
+	next, restore, snapshot, ctor             *Func
 	jump, set, ifx, cmd, call, decl, incVisit *Func
-	waiting                                  *Func // isWaitingForChoice-like predicate (may be nil)
-	problems                                 []string
+	waiting                                   *Func // isWaitingForChoice-like predicate (may be nil)
+	problems                                  []string
 
 	// the cursor over a list of statements (statementQueue today), recognised by structure: a struct of the package
 	// with a []*tree.Statement field and an int field
@@ -227,8 +227,8 @@ func (m *runnerModel) ok(c *Ctx, rule string) bool {
 // ctorInit describes how the constructor initialises the runner it returns: the literal's elements, overridden or
 // completed by top-level stores `r.f = e` on the local that is returned (a runner built step by step).
 type ctorInit struct {
-	obj    types.Object         // the local holding the runner under construction (nil: literal returned directly)
-	fields map[string]ast.Expr  // field name -> initial value expression
+	obj    types.Object        // the local holding the runner under construction (nil: literal returned directly)
+	fields map[string]ast.Expr // field name -> initial value expression
 	pos    token.Pos
 }
 
